@@ -69,7 +69,7 @@ def _mk_shapes():
   import records
   TableS = Obj("Table", consts={"Record": Model("table.Record(row_id, relation)", _record)})
   RSet = Obj("RecordSet", real_cls=records.RecordSet,
-             consts={"_sort_key": Model("sort_key.SortKey contract (C13 lemma)", _key),
+             consts={"_sort_key": Model("sort_key.SortKey replaced by its contract (the contract itself is proved: C13.sortkey_init_*, C13.sortkey_lt_*)", _key),
                      "_sort_by": None, "_group_by": None},
              _row_ids=Seq(Int), _source_relation=Rel, _table=TableS)
   Find = Obj("FindOps", real_cls=records.FindOps, _rset=RSet)
